@@ -2005,10 +2005,13 @@ def irdl_op_arg_definition(
 ) -> None:
     defs = get_construct_defs(op_def, construct)
 
-    if any(
+    num_variadics = sum(isinstance(d, VariadicDef) for _, d in defs)
+
+    # The same-size accessors divide by the number of variadic definitions, so they
+    # are only used when there is one; otherwise all definitions are at fixed positions.
+    if num_variadics and any(
         isinstance(o, get_same_variadic_size_option(construct)) for o in op_def.options
     ):
-        num_variadics = sum(isinstance(d, VariadicDef) for _, d in defs)
         variadics_encountered = 0
         num_defs = len(defs)
 
